@@ -194,6 +194,126 @@ func c15AppendArgs(st ast.Stmt, slice string) ([]ast.Expr, bool) {
 	return call.Args[1:], true
 }
 
+type c15Chain struct {
+	decs      []c15Dec
+	sigVar    string   // name of a local holding a decorator chosen by a condition ("" if none)
+	sigAlts   []c15Dec // (cond, constructor) alternatives for that local, later entries override
+	authzArgs []ast.Expr
+	authzSeen int
+}
+
+// c15ParseChain understands the two shapes a chain constructor has in ante.go:
+//   return sdk.ChainAnteDecorators(a, b, …)
+// or a statement list made of
+//   decorators := []sdk.AnteDecorator{…} ; decorators = append(decorators, …) ; if cond { decorators = append(…) } ;
+//   var x sdk.AnteDecorator = ctor(…) ; if cond { x = ctor(…) } ; return sdk.ChainAnteDecorators(decorators...)
+// Anything else is an error (the file then fails to compile and the obligations are re-opened).
+func c15ParseChain(af *File, fn string) (*c15Chain, error) {
+	fd, err := af.funcDecl(fn)
+	if err != nil {
+		return nil, err
+	}
+	ch := &c15Chain{}
+	addDec := func(cond string, e ast.Expr) error {
+		name, args, err := c15CtorName(e)
+		if err != nil {
+			return fmt.Errorf("%s:%d: %v", af.Path, af.line(e), err)
+		}
+		if name == "NewAuthzLimiterDecorator" {
+			ch.authzSeen++
+			ch.authzArgs = args
+		}
+		ch.decs = append(ch.decs, c15Dec{cond, name})
+		return nil
+	}
+	returned := false
+	for _, st := range fd.Body.List {
+		if returned {
+			return nil, fmt.Errorf("%s:%d: statement after return in %s", af.Path, af.line(st), fn)
+		}
+		if as, ok := st.(*ast.AssignStmt); ok && as.Tok == token.DEFINE && len(as.Lhs) == 1 && exprString(as.Lhs[0]) == "decorators" {
+			cl, ok := as.Rhs[0].(*ast.CompositeLit)
+			if !ok {
+				return nil, fmt.Errorf("%s:%d: decorators is not initialised by a literal", af.Path, af.line(st))
+			}
+			for _, el := range cl.Elts {
+				if err := addDec("", el); err != nil {
+					return nil, err
+				}
+			}
+			continue
+		}
+		if args, ok := c15AppendArgs(st, "decorators"); ok {
+			for _, a := range args {
+				if err := addDec("", a); err != nil {
+					return nil, err
+				}
+			}
+			continue
+		}
+		if is, ok := st.(*ast.IfStmt); ok && is.Init == nil && is.Else == nil && len(is.Body.List) == 1 {
+			if args, ok := c15AppendArgs(is.Body.List[0], "decorators"); ok {
+				for _, a := range args {
+					if err := addDec(c15Cond(is.Cond), a); err != nil {
+						return nil, err
+					}
+				}
+				continue
+			}
+			// `if cond { x = ctor(…) }`
+			if as, ok := is.Body.List[0].(*ast.AssignStmt); ok && as.Tok == token.ASSIGN && len(as.Lhs) == 1 && ch.sigVar != "" && exprString(as.Lhs[0]) == ch.sigVar {
+				name, _, err := c15CtorName(as.Rhs[0])
+				if err != nil {
+					return nil, err
+				}
+				ch.sigAlts = append(ch.sigAlts, c15Dec{c15Cond(is.Cond), name})
+				continue
+			}
+		}
+		if ds, ok := st.(*ast.DeclStmt); ok {
+			if gd, ok := ds.Decl.(*ast.GenDecl); ok && gd.Tok == token.VAR && len(gd.Specs) == 1 {
+				vs := gd.Specs[0].(*ast.ValueSpec)
+				if len(vs.Names) == 1 && len(vs.Values) == 1 && ch.sigVar == "" {
+					ch.sigVar = vs.Names[0].Name
+					name, _, err := c15CtorName(vs.Values[0])
+					if err != nil {
+						return nil, err
+					}
+					ch.sigAlts = append(ch.sigAlts, c15Dec{"", name})
+					continue
+				}
+			}
+		}
+		if rs, ok := st.(*ast.ReturnStmt); ok && len(rs.Results) == 1 {
+			call, ok := rs.Results[0].(*ast.CallExpr)
+			if !ok || exprString(call.Fun) != "sdk.ChainAnteDecorators" {
+				return nil, fmt.Errorf("%s:%d: unexpected return %s", af.Path, af.line(st), af.text(st))
+			}
+			if call.Ellipsis != token.NoPos {
+				if len(call.Args) != 1 || exprString(call.Args[0]) != "decorators" {
+					return nil, fmt.Errorf("%s:%d: unexpected return %s", af.Path, af.line(st), af.text(st))
+				}
+			} else {
+				if len(ch.decs) > 0 {
+					return nil, fmt.Errorf("%s:%d: %s builds `decorators` but returns another list", af.Path, af.line(st), fn)
+				}
+				for _, a := range call.Args {
+					if err := addDec("", a); err != nil {
+						return nil, err
+					}
+				}
+			}
+			returned = true
+			continue
+		}
+		return nil, fmt.Errorf("%s:%d: %s has a statement the extractor does not understand: %s", af.Path, af.line(st), fn, af.text(st))
+	}
+	if !returned {
+		return nil, fmt.Errorf("%s: %s does not return the chain", af.Path, fn)
+	}
+	return ch, nil
+}
+
 func emitC15Ante(repo string) (string, any, error) {
 	c := &c15Ctx{repo: repo, dirs: map[string]string{}, protoNm: map[string]map[string]string{}}
 	facts := map[string]any{}
@@ -207,135 +327,30 @@ func emitC15Ante(repo string) (string, any, error) {
 	}
 	aimp := c15Imports(af)
 
-	// newCosmosAnteHandler: chain
-	fd, err := af.funcDecl("newCosmosAnteHandler")
+	// newCosmosAnteHandler / newEthAnteHandler: chains
+	cosmosCh, err := c15ParseChain(af, "newCosmosAnteHandler")
 	if err != nil {
 		return "", nil, err
 	}
-	var cosmos []c15Dec
-	var authzArgs []ast.Expr
-	authzSeen := 0
-	sigVar := ""     // name of the local holding the signature verification decorator
-	var sigAlts []c15Dec // (cond, constructor) alternatives for that local
-	addDec := func(cond string, e ast.Expr) error {
-		name, args, err := c15CtorName(e)
-		if err != nil {
-			return fmt.Errorf("app/ante/ante.go:%d: %v", af.line(e), err)
-		}
-		if name == "NewAuthzLimiterDecorator" {
-			authzSeen++
-			authzArgs = args
-		}
-		cosmos = append(cosmos, c15Dec{cond, name})
-		return nil
+	ethCh, err := c15ParseChain(af, "newEthAnteHandler")
+	if err != nil {
+		return "", nil, err
 	}
-	returned := false
-	for _, st := range fd.Body.List {
-		if returned {
-			return "", nil, fmt.Errorf("app/ante/ante.go:%d: statement after return in newCosmosAnteHandler", af.line(st))
-		}
-		if as, ok := st.(*ast.AssignStmt); ok && as.Tok == token.DEFINE && len(as.Lhs) == 1 && exprString(as.Lhs[0]) == "decorators" {
-			cl, ok := as.Rhs[0].(*ast.CompositeLit)
-			if !ok {
-				return "", nil, fmt.Errorf("app/ante/ante.go:%d: decorators is not initialised by a literal", af.line(st))
-			}
-			for _, el := range cl.Elts {
-				if err := addDec("", el); err != nil {
-					return "", nil, err
-				}
-			}
-			continue
-		}
-		if args, ok := c15AppendArgs(st, "decorators"); ok {
-			for _, a := range args {
-				if err := addDec("", a); err != nil {
-					return "", nil, err
-				}
-			}
-			continue
-		}
-		if is, ok := st.(*ast.IfStmt); ok && is.Init == nil && is.Else == nil && len(is.Body.List) == 1 {
-			if args, ok := c15AppendArgs(is.Body.List[0], "decorators"); ok {
-				for _, a := range args {
-					if err := addDec(c15Cond(is.Cond), a); err != nil {
-						return "", nil, err
-					}
-				}
-				continue
-			}
-			// `if cond { sigVerification = X }`
-			if as, ok := is.Body.List[0].(*ast.AssignStmt); ok && as.Tok == token.ASSIGN && len(as.Lhs) == 1 && sigVar != "" && exprString(as.Lhs[0]) == sigVar {
-				name, _, err := c15CtorName(as.Rhs[0])
-				if err != nil {
-					return "", nil, err
-				}
-				sigAlts = append(sigAlts, c15Dec{c15Cond(is.Cond), name})
-				continue
-			}
-		}
-		if ds, ok := st.(*ast.DeclStmt); ok {
-			if gd, ok := ds.Decl.(*ast.GenDecl); ok && gd.Tok == token.VAR && len(gd.Specs) == 1 {
-				vs := gd.Specs[0].(*ast.ValueSpec)
-				if len(vs.Names) == 1 && len(vs.Values) == 1 && sigVar == "" {
-					sigVar = vs.Names[0].Name
-					name, _, err := c15CtorName(vs.Values[0])
-					if err != nil {
-						return "", nil, err
-					}
-					sigAlts = append(sigAlts, c15Dec{"", name})
-					continue
-				}
-			}
-		}
-		if rs, ok := st.(*ast.ReturnStmt); ok && len(rs.Results) == 1 {
-			if exprString(rs.Results[0]) != "sdk.ChainAnteDecorators(decorators)" {
-				if call, ok := rs.Results[0].(*ast.CallExpr); !ok || exprString(call.Fun) != "sdk.ChainAnteDecorators" || call.Ellipsis == token.NoPos || exprString(call.Args[0]) != "decorators" {
-					return "", nil, fmt.Errorf("app/ante/ante.go:%d: unexpected return %s", af.line(st), af.text(st))
-				}
-			}
-			returned = true
-			continue
-		}
-		return "", nil, fmt.Errorf("app/ante/ante.go:%d: newCosmosAnteHandler has a statement the extractor does not understand: %s", af.line(st), af.text(st))
+	cosmos, sigVar, sigAlts := cosmosCh.decs, cosmosCh.sigVar, cosmosCh.sigAlts
+	eth := ethCh.decs
+	if cosmosCh.authzSeen > 1 || ethCh.authzSeen > 0 && cosmosCh.authzSeen > 0 {
+		return "", nil, fmt.Errorf("app/ante/ante.go: NewAuthzLimiterDecorator appears %d times", cosmosCh.authzSeen+ethCh.authzSeen)
 	}
-	if !returned {
-		return "", nil, fmt.Errorf("app/ante/ante.go: newCosmosAnteHandler does not return the chain")
-	}
-	if authzSeen > 1 {
-		return "", nil, fmt.Errorf("app/ante/ante.go: NewAuthzLimiterDecorator appears %d times", authzSeen)
+	if ethCh.sigVar != "" {
+		return "", nil, fmt.Errorf("app/ante/ante.go: newEthAnteHandler declares a local decorator variable %s", ethCh.sigVar)
 	}
 	var authzURLs []string
-	for _, a := range authzArgs {
+	for _, a := range cosmosCh.authzArgs {
 		u, err := c.msgTypeURL(af, aimp, a)
 		if err != nil {
 			return "", nil, err
 		}
 		authzURLs = append(authzURLs, u)
-	}
-
-	// newEthAnteHandler: chain
-	ed, err := af.funcDecl("newEthAnteHandler")
-	if err != nil {
-		return "", nil, err
-	}
-	var eth []string
-	if len(ed.Body.List) != 1 {
-		return "", nil, fmt.Errorf("app/ante/ante.go: newEthAnteHandler is not a single return")
-	}
-	if rs, ok := ed.Body.List[0].(*ast.ReturnStmt); ok && len(rs.Results) == 1 {
-		call, ok := rs.Results[0].(*ast.CallExpr)
-		if !ok || exprString(call.Fun) != "sdk.ChainAnteDecorators" {
-			return "", nil, fmt.Errorf("app/ante/ante.go: newEthAnteHandler does not return sdk.ChainAnteDecorators(…)")
-		}
-		for _, a := range call.Args {
-			n, _, err := c15CtorName(a)
-			if err != nil {
-				return "", nil, err
-			}
-			eth = append(eth, n)
-		}
-	} else {
-		return "", nil, fmt.Errorf("app/ante/ante.go: newEthAnteHandler is not a single return")
 	}
 
 	// NewAnteHandler: router
@@ -818,7 +833,7 @@ func emitC15Ante(repo string) (string, any, error) {
 	fmt.Fprintf(&sb, "/-- app/ante/ante.go newCosmosAnteHandler: (condition, constructor) in chain order; \"\" = unconditional -/\ndef c15CosmosChain : List (String × String) := %s\n\n", pairList(cosmos))
 	fmt.Fprintf(&sb, "/-- app/ante/ante.go newCosmosAnteHandler: what the local `%s` holds: (condition, constructor), later entries override -/\ndef c15SigVerification : List (String × String) := %s\n\n", sigVar, pairList(sigAlts))
 	fmt.Fprintf(&sb, "/-- app/ante/ante.go newCosmosAnteHandler: name of the local holding the signature verification decorator -/\ndef c15SigVerificationVar : String := %s\n\n", leanStr(sigVar))
-	fmt.Fprintf(&sb, "/-- app/ante/ante.go newEthAnteHandler: constructors in chain order -/\ndef c15EthChain : List String := %s\n\n", leanStrList(eth))
+	fmt.Fprintf(&sb, "/-- app/ante/ante.go newEthAnteHandler: (condition, constructor) in chain order -/\ndef c15EthChain : List (String × String) := %s\n\n", pairList(eth))
 	{
 		q := make([]string, len(guard))
 		for i, a := range guard {
